@@ -238,7 +238,7 @@ fn run(tier: Tier) -> Sink {
         Tier::Quick => &STYLES_QUICK,
         Tier::Thorough => &STYLES_ALL,
     };
-    let (max_dy, max_nd) = tier.pick((4, 3), (6, 4));
+    let (max_dy, max_nd) = tier.pick((4, 3), (6, 5));
     let mut jobs = vec![];
     for f32_ in [false, true] {
         for len in 2..=max_dy {
@@ -363,7 +363,7 @@ fn main() {
     s.sample(json!({"check":"D2","type":"f64","pattern":[1.0,-1.0],"n":100000,"kind":"Two","level":0.99,"oracle":"dof 99999: t CDF (normal accepted within 1% of the switch)"}));
     rep.rule = format!(
         "D1: every sequence of length 2..{} over {:?} (length 2..3 also scaled by 2^e, e in {{-300,-60,-30,40,300}} for f64 and {{-40,-20,20,40}} for f32) and of length 2..{} over {:?} x {} confidences x f64,f32 x call styles {:?}; D2: {} streaming patterns fed one value at a time, queried at {} sample sizes ({}) x confidences x f64,f32, plus the cross-pattern invariance of half-width/se; D3: all six one-shot / chunked entry points on materialised vectors of 1e3, 3e4 and 2.5e5 values of each pattern; distinct by (type, kind, constant?, result bits) and (type, pattern, kind, dof decade)",
-        tier.pick(4, 6), A_DYADIC, tier.pick(3, 4), A_NONDYADIC, vcheck::confs(tier).len(), match tier { Tier::Quick => &STYLES_QUICK[..], Tier::Thorough => &STYLES_ALL[..] },
+        tier.pick(4, 6), A_DYADIC, tier.pick(3, 5), A_NONDYADIC, vcheck::confs(tier).len(), match tier { Tier::Quick => &STYLES_QUICK[..], Tier::Thorough => &STYLES_ALL[..] },
         tier.pick(3, 6), query_points(tier).len(), tier.pick("every n in 2..3000 and 99000..101000, powers of two, 200001", "every n in 2..101000, 131072, 200001")
     );
     rep.assume("tolerance in probability = dof-tier floor (bounded below by statrs' own quantile accuracy; maxima per dof decade are reported) + 0.3*16u*cond(variance) + 0.4*(8u*sum|x|/n + 2u|bound|)/se; cases whose data-dependent part exceeds 0.2*min(p,1-p) are counted as outside the conditioning domain");
